@@ -341,7 +341,7 @@ impl<'a> Run<'a> {
                 let foreign = self.rng.gen_bool(0.25);
                 outs.push(OutReq {
                     pool,
-                    acct: if foreign { 0 } else { 1 },
+                    acct: if foreign { 0 } else if self.rng.gen_bool(0.25) { 2 } else { 1 },
                     internal: !foreign && pool != Pool::Sapling && self.rng.gen_bool(0.3),
                     diversified: self.rng.gen_bool(0.3),
                     value: self.value(),
